@@ -122,6 +122,8 @@ func (br *BrokerBatchRows) TryAppend(appendFunc func(row *BrokerRow) error) erro
 	if len(br.rows) <= br.rowCount {
 		br.rows = append(br.rows, BrokerRow{})
 	}
+	// the row slot may be reused from a previous batch(sync.Pool), forget its out-of-time-range mark
+	br.rows[br.rowCount].IsOutOfTimeRange = false
 	if err := appendFunc(&br.rows[br.rowCount]); err != nil {
 		return err
 	}
